@@ -19,6 +19,20 @@ CLAIMS = {
           "(R4) repack: temporary pack fsynced before the first commit, old pack removed only after it. Does NOT decide what storage really persists (fault model as stated by the property; no directory-fsync obligation)."),
     note="Platform constants folded for the platform running the check (Linux); SQLite commit durability trusted.",
     technique="static typestate analysis with durability facts + must-pass-through on the callee (alias-resolved fsync lambda)", ref="5/C06"),
+ 'C04': dict(
+    text=("Decides the code-side premises of the reader/writer/packer protocol (the short safety argument from the premises is in DESIGN.md 5/C04): "
+          "writer publishes only complete, closed sandbox files by one atomic rename/replace, tolerates a vanishing destination, and nobody removes directories below loose/; "
+          "packer makes pack bytes visible (flush/close) before committing the row and unlinks a loose file only after the commit; clean_storage decides on a snapshot begun after a session refresh; "
+          "reader catches FileNotFoundError of the loose probe, routes the key to the retry set, refreshes its session and re-queries (IN and sorted-scan strategies) before answering MISSING, in both stream modes, and takes the loose size from the open descriptor; "
+          "LazyLooseStream retries through loosen_object. Each premise is a necessary condition; the interleaving semantics themselves are NOT decided."),
+    note="Trusted: POSIX unlink-while-open, rename atomicity, SQLite WAL snapshot isolation (a new session sees all earlier commits); one packer.",
+    technique="static typestate analysis on ICFGs with exception edges + handler-routing/provenance checks on the read funnel", ref="5/C04"),
+ 'C17': dict(
+    text=("Decides, on control-flow graphs with exception edges (any call may raise): (R2) no except clause of the package that catches a generic I/O or database error around a mutating effect continues normally (table of allowed narrow idioms); "
+          "(R3) the C05 commit/unlink/publish/repack guards also hold along handler, finally and with-exit paths, and no index row is staged or tracked for an object whose processing was interrupted by a swallowed exception; "
+          "(R4) HashWriterWrapper.write checks the stream position before writing and updates hash/position only after it. Does NOT decide the behaviour of real calls under injected faults nor that a rerun succeeds."),
+    note="Fault model: one call raises OSError/OperationalError; PermissionError (Windows locking) handlers only checked by R3; stale lock files / sandbox litter tolerated by the property.",
+    technique="static typestate analysis on exception-edge CFGs + error-discipline table over all except clauses", ref="5/C17"),
 }
 
 PENDING_REASON = "check not built yet in this session (work in progress; DESIGN.md section 5 describes the planned static rules)"
